@@ -21,11 +21,30 @@ type c14Case struct {
 	Origin string `json:"origin"` // gopki | stdlib | hand
 	KeyFix string `json:"keyFix"` // fixture name
 	Layout int    `json:"layout,omitempty"`
-	CSR    bool   `json:"csr,omitempty"` // CSR variant: the leaf holds a request made from KeyFix
-	Seq    []int  `json:"seq"`           // trigger sequence
+	CSR    bool   `json:"csr,omitempty"`  // CSR variant: the leaf holds a request made from KeyFix
+	Seq    []int  `json:"seq"`            // trigger sequence
+	Deco   int    `json:"deco,omitempty"` // how the hand-made file is decorated around the PEM block (c14Decos)
 }
 
 var c14Triggers = []string{"edit-subject", "touch+outdated", "generate-all", "strip-certificate", "expire", "renew+expired-flag", "regenerate-issuer", "keyalg-to-rsa", "keyalg-to-ec", "strip-hash"}
+
+var c14Decos = []string{"plain", "trailing-blank-line", "trailing-remark", "leading-bag-attributes", "crlf-line-ends", "blank-lines-around"}
+
+func c14Decorate(pem []byte, deco int) []byte {
+	switch c14Decos[deco] {
+	case "trailing-blank-line":
+		return append(append([]byte{}, pem...), '\n')
+	case "trailing-remark":
+		return append(append([]byte{}, pem...), []byte("exported for the test PKI, do not use in production\n")...)
+	case "leading-bag-attributes":
+		return append([]byte("Bag Attributes\n    friendlyName: test key\n    localKeyID: 01 02 03 04\nKey Attributes: <No Attributes>\n"), pem...)
+	case "crlf-line-ends":
+		return bytes.ReplaceAll(pem, []byte("\n"), []byte("\r\n"))
+	case "blank-lines-around":
+		return append(append([]byte("\n\n"), pem...), []byte("\n\n")...)
+	}
+	return pem
+}
 
 var c14Layouts = []refx509.ECEncoding{
 	{OuterOID: true},
@@ -47,6 +66,18 @@ func c14Enumerate(tier string, yield func(any)) {
 			cc := c
 			cc.Seq = s
 			yield(&cc)
+		}
+		// files assembled by hand or exported by other tools carry text around the blocks
+		for deco := 1; deco < len(c14Decos); deco++ {
+			for _, s := range seqs {
+				// the decoration only matters for the first import: no trigger, edit-subject, generate-all
+				if len(s) > 1 || (len(s) == 1 && s[0] != 0 && s[0] != 2) {
+					continue
+				}
+				cc := c
+				cc.Seq, cc.Deco = s, deco
+				yield(&cc)
+			}
 		}
 	}
 	for _, alg := range refx509.KeyAlgNames {
@@ -141,12 +172,15 @@ func c14Exec(x *engine.Ctx, cc any) {
 	d.Render(w)
 	w.Put("root.pem", FixtureKeyPEM("P-256-0"))
 	if c.CSR {
-		w.Put("leaf.pem", reqPEM)
+		w.Put("leaf.pem", c14Decorate(reqPEM, c.Deco))
 	} else {
-		w.Put("mid.pem", keyPEM)
+		w.Put("mid.pem", c14Decorate(keyPEM, c.Deco))
 	}
-	desc := fmt.Sprintf("origin=%s key=%s layout=%d csr=%v", c.Origin, c.KeyFix, c.Layout, c.CSR)
+	desc := fmt.Sprintf("origin=%s key=%s layout=%d csr=%v file=%s", c.Origin, c.KeyFix, c.Layout, c.CSR, c14Decos[c.Deco])
 	feat := fmt.Sprintf("origin=%s family=%s", c.Origin, map[bool]string{true: "RSA", false: curveFamily(key.Describe())}[key.RSA != nil])
+	if c.Deco > 0 {
+		feat += " file=" + c14Decos[c.Deco]
+	}
 	if c.Origin == "hand" {
 		l := c14Layouts[c.Layout]
 		feat += fmt.Sprintf(" outer-oid=%v inner-oid=%v public=%v", l.OuterOID, l.InnerOID, l.Public)
@@ -286,7 +320,7 @@ func init() {
 	register(&engine.Check{
 		ID:          "C14",
 		Level:       "model_checking",
-		Rule:        "chain root -> mid -> leaf where mid owns a pre-existing key (so children exist). Key origins: each of the 14 algorithms written by gopki's own PKCS#8 writer, standard-library PKCS#8 for RSA 1024/2048/4096 and the NIST curves, reference-built PKCS#8 for all 10 curves in 5 layouts (curve OID outer only, outer + public key, inner only, inner + public key, both + public key); CSR variant: the leaf holds only a request made from 8 key types. From each, every trigger sequence of length <=2 (quick) / <=3 (thorough) over {edit subject, touch + generate-outdated, generate-all, strip certificate block, expire (dates in the past), renew + generate-expired, regenerate issuer, change keyAlgorithm to RSA, to another curve, strip hash line}. After every run: stored key is the same key, certificate SPKI is its public key, mid verifies under root and leaf under mid with byte-equal issuer DN; CSR variant: SPKI bytes = request SPKI, request block byte-identical, no PRIVATE KEY block. states = (origin, trigger prefix), transitions = runs",
+		Rule:        "chain root -> mid -> leaf where mid owns a pre-existing key (so children exist). Key origins: each of the 14 algorithms written by gopki's own PKCS#8 writer, standard-library PKCS#8 for RSA 1024/2048/4096 and the NIST curves, reference-built PKCS#8 for all 10 curves in 5 layouts (curve OID outer only, outer + public key, inner only, inner + public key, both + public key); CSR variant: the leaf holds only a request made from 8 key types. Each origin also with the file decorated the way hand-assembled or exported files are (trailing blank line, trailing remark, leading Bag-Attributes text, CRLF line ends, blank lines around) followed by no trigger, edit-subject or generate-all. From each, every trigger sequence of length <=2 (quick) / <=3 (thorough) over {edit subject, touch + generate-outdated, generate-all, strip certificate block, expire (dates in the past), renew + generate-expired, regenerate issuer, change keyAlgorithm to RSA, to another curve, strip hash line}. After every run: stored key is the same key, certificate SPKI is its public key, mid verifies under root and leaf under mid with byte-equal issuer DN; CSR variant: SPKI bytes = request SPKI, request block byte-identical, no PRIVATE KEY block. states = (origin, trigger prefix), transitions = runs",
 		Bound:       map[string]string{"trigger sequence": "quick<=2 thorough<=3"},
 		Assumptions: []string{"key identity is compared on the private scalar / (N, D)"},
 		Budget:      budgets(quickBudget, thoroughBudget),
